@@ -25,10 +25,17 @@ pub struct NumericParts {
 impl From<Numeric> for NumericParts {
     fn from(value: Numeric) -> NumericParts {
         let (exact, approx) = value.string_repr(10, Digits::Default);
-        let (num, den) = value.to_rational();
+        let (numer, denom) = match value {
+            // NaN and infinities have no rational form
+            Numeric::Float(f) if !f.is_finite() => (f.to_string(), "1".to_owned()),
+            ref value => {
+                let (num, den) = value.to_rational();
+                (num.to_string(), den.to_string())
+            }
+        };
         NumericParts {
-            numer: num.to_string(),
-            denom: den.to_string(),
+            numer,
+            denom,
             exact_value: exact,
             approx_value: approx,
         }
